@@ -14,7 +14,7 @@ import numpy as np
 PROP = "C09"
 LEVEL = "exploration"
 VARIANTS = ("omp",)
-CASE_TIMEOUT = 400
+CASE_TIMEOUT = 1200
 RULE = ("kind grid: primitive cells of all lattice systems (zoo) x meshes from {1..6}^3 (incl. anisotropic ones that break lattice equivalence) x shift "
         "(none | all half-shift combinations | arbitrary 0.25/0.1/0.37 | integer) x Gamma-centred/Monkhorst-Pack x time reversal on/off x fit_in_BZ x mesh symmetry on/off; "
         "oracles: weights sum, documented grid q=(i+s)/n (+1/2 for even n in MP), orbit test on the mapping table, weighted sums of exactly invariant "
